@@ -7,6 +7,31 @@ from hirlib import callee, local_of, pat_variants, peel, peel_refs, place_path, 
 AST_S = "crate::ast::Statement"
 
 
+
+REG_NAMES = ("add_shadowing_identifier", "add_other_identifier")
+
+
+def _is_registration(crate, n, names=("add_shadowing_identifier",)):
+    """a registration of a name: a direct `X.prefix_parser.add_shadowing_identifier(..)` or a call of a Transformer
+    helper method whose body does that on its own `self` (`fn add_local_binding(&mut self, ..)`).  Returns the local the
+    registration is applied to (root of the receiver) or False."""
+    if n.get("k") != "MethodCall":
+        return False
+    if n["name"] in names:
+        p = place_path(n["recv"])
+        return (p[0] if p else None, )
+    c = (callee(n) or "").split("::<")[0]
+    h = crate.hir.get(c)
+    if h is not None and "Transformer::" in c and h.get("params"):
+        sid = h["params"][0].get("id")
+        for x in walk(h["body"]):
+            if x.get("k") == "MethodCall" and x["name"] in names:
+                p = place_path(x["recv"])
+                if p and p[0] == sid:
+                    q = place_path(n["recv"])
+                    return (q[0] if q else None, )
+    return False
+
 def rule_scope(crate):
     out = RuleOut("SCOPE", "function bodies and where-clauses are name-resolved in the function's own scope")
     fn = crate.find_fn("prefix_transformer::Transformer::transform_statement")
@@ -36,9 +61,9 @@ def rule_scope(crate):
     # shadowing names are registered on the clone
     regs = []
     for n in walk(arm["body"]):
-        if n.get("k") == "MethodCall" and n["name"] == "add_shadowing_identifier":
-            p = place_path(n["recv"])
-            regs.append(p[0] if p else None)
+        r_ = _is_registration(crate, n)
+        if r_:
+            regs.append(r_[0])
     if regs and all(r == clone_id for r in regs):
         out.ok("transform_statement:DefineFunction:shadowing-on-clone", cf, cl, "%d add_shadowing_identifier call(s), all on `%s`" % (len(regs), clone_name))
     else:
@@ -71,7 +96,7 @@ def rule_scope(crate):
                     changed = True
     reg_idx, visit_idx = [], []
     for si, st in enumerate(stmts):
-        has_reg = any(x.get("k") == "MethodCall" and x["name"] == "add_shadowing_identifier" for x in walk(st))
+        has_reg = any(_is_registration(crate, x) for x in walk(st))
         uses_params = any(x.get("k") == "Path" and x["res"].get("r") == "local" and x["res"]["id"] in param_ids for x in walk(st))
         if has_reg and uses_params:
             reg_idx.append(si)
@@ -95,7 +120,7 @@ def rule_scope(crate):
             continue
         if not any(x.get("k") == "Path" and x["res"].get("r") == "local" and x["res"]["id"] in loc_ids for x in walk(lp["scrut"])):
             continue
-        regs_ = [x for x in walk(lp) if x.get("k") == "MethodCall" and x["name"] in ("add_shadowing_identifier", "add_other_identifier")]
+        regs_ = [x for x in walk(lp) if _is_registration(crate, x, REG_NAMES)]
         visits_ = [x for x in walk(lp) if x.get("k") == "MethodCall" and (callee(x) or "").endswith(("Transformer::transform_expression", "Transformer::transform_define_variable"))]
         for r in regs_:
             n_loc += 1
